@@ -6,7 +6,7 @@ root = os.path.dirname(os.path.dirname(os.path.abspath(__file__)))
 rows = []
 def key(d):
     n = os.path.basename(d)
-    rnd = 2 if n.startswith("r2-") else 3 if n.startswith("r3-") else 1
+    rnd = 2 if n.startswith("r2-") else 3 if n.startswith("r3-") else 4 if n.startswith("r4-") else 1
     m = re.search(r"C(\d+)-(\d+)", n)
     return (int(m.group(1)), rnd, int(m.group(2)))
 for d in sorted(glob.glob(os.path.join(root, "seeded", "*C*-*")), key=key):
@@ -26,8 +26,9 @@ for d in sorted(glob.glob(os.path.join(root, "seeded", "*C*-*")), key=key):
                  ", ".join(v.get("not_flagged_by", [])) or "-", ", ".join(v.get("first_missed_then_strengthened", [])) or "-"))
 own_caught = sum(1 for r in rows if re.search(r"C\d+", r[0]).group(0) in r[3].split(", "))
 out = []
-out.append(f"{len(rows)} changes, two per property and round; {own_caught} are flagged by the quick tier of the property they were written against "
-           "(the remaining one, C05-2, was judged not to violate the property as worded, see seeded/INDEX.md).  "
+out.append(f"{len(rows)} changes (rounds 1-3: two per property; round 4: six properties, changes outside the anchor files); {own_caught} are flagged by the quick tier of the property they were written against.  "
+           "The others: C05-2 and r4-C20-2 were judged not to violate the property as worded (their demonstrations need what the TreeSink contract excludes, see seeded/INDEX.md); "
+           "r4-C07-2, r4-C11-1 and r4-C11-2 are changes whose effect lies in another property's territory and are flagged by that property's check (C02, C10, C13/C01).  "
            "'first missed' names checks that did not flag the change when it arrived and were strengthened (section 9); "
            "'also run, silent' lists other checks I ran against the change that have no reason to see it or that see it only through another property.\n")
 out.append("| seed | change (agent's title) | files | flagged by (quick tier, final checks) | also run, silent | first missed |")
